@@ -3,5 +3,5 @@ CONSTANTS
   Wide = TRUE
   MaxCalls = 6
   RepN = {0, 1, 2, 3}
-INVARIANTS LeftToRight StopsAtFirstFailure ErrorLocates PrefixOfFullRun ScorerFaithful Emit
+INVARIANTS LeftToRight StopsAtFirstFailure EmptySelectionFails ErrorLocates PrefixOfFullRun ScorerFaithful Emit
 CHECK_DEADLOCK FALSE
